@@ -22,6 +22,12 @@
 //   fdscan <r|s> <flags> yr_rules_scan_fd / yr_scanner_scan_fd on that descriptor
 //   fddecoy <hex>        open an unrelated file (a closed descriptor number would now refer to it); kept until fdend
 //   fdend                close and unlink everything
+// Hostile neighbours (C13 part 2c): nothing outside the bytes handed over may influence a result.
+//   gscan <rmem|smem> <slicea|slicew|heap|pnend|pnstart> <flags> <hex>
+//        the bytes are scanned as a slice of a larger buffer whose neighbouring bytes are alphanumeric (slicea: 'A'
+//        directly before and after; slicew: "A\\0" before and after, hostile for wide strings), as an exact-size heap
+//        object (ASan variant sees any over/under-read), or in a mapping that ends / starts at a PROT_NONE page
+//   pguard <none|slicea|slicew>   blocks of the persistent iterator are handed over as such slices (takes effect at piter)
 // Iterator semantics ("position keeping"): the iterator remembers the index of the last block it delivered
 // (-1 at piter).  first(): if ready deliver block 0.  next(): if ready deliver block last+1.  A not-ready answer
 // changes nothing but last_error.  Hence next() after a not-ready first() delivers block 0: this is what an
@@ -44,6 +50,8 @@ static struct
   int nulldata[64];
   char log[16384];
   int loglen;
+  int guard;                      // 0 none, 1 slicea, 2 slicew: how p_fetch hands the blocks over
+  uint8_t* gbuf[64];              // guarded copies of the blocks (built at piter)
   int naive;                      // pmode naive: first() rewinds before it knows whether it is ready
   int snap;                       // snapshot taken
   char rm[4096], ns[4096];
@@ -62,6 +70,7 @@ static const uint8_t* p_fetch(YR_MEMORY_BLOCK* b)
 {
   intptr_t i = (intptr_t) b->context;
   if (P.nulldata[i]) return NULL;
+  if (P.guard && P.gbuf[i]) return P.gbuf[i] + 8;
   return P.s->blk_data[i];
 }
 
@@ -294,6 +303,64 @@ static void fd_cmds(HS* s, const char* c, char* p)
   }
 }
 
+// ---- hostile neighbours
+static uint8_t* guarded_copy(const uint8_t* b, size_t len, int mode)
+{
+  // 8 guard bytes before and after; mode 1: 'A' adjacent on both sides; mode 2: "A\0" before, "A\0" after
+  uint8_t* g = (uint8_t*) malloc(len + 16);
+  for (int i = 0; i < 8; i++)
+  {
+    g[i] = mode == 1 ? ((i & 1) ? 'A' : 0) : ((i & 1) ? 0 : 'A');      // mode 1: ..\0A| ; mode 2: ..A\0|
+    g[8 + len + i] = (i & 1) ? 0 : 'A';                                 // |A\0A\0..
+  }
+  if (len) memcpy(g + 8, b, len);
+  return g;
+}
+
+static void gscan_cmd(HS* s, char* p)
+{
+  FILE* o = s->out;
+  char* e = tok(&p);
+  char* mode = tok(&p);
+  int flags = atoi(tok(&p));
+  size_t len;
+  uint8_t* b = h_unhex(tok(&p), &len);
+  uint8_t* base = NULL;
+  const uint8_t* data = NULL;
+  size_t maplen = 0;
+  long pg = sysconf(_SC_PAGESIZE);
+  if (!strcmp(mode, "slicea") || !strcmp(mode, "slicew")) { base = guarded_copy(b, len, mode[5] == 'a' ? 1 : 2); data = base + 8; }
+  else if (!strcmp(mode, "heap")) { base = (uint8_t*) malloc(len ? len : 1); if (len) memcpy(base, b, len); data = base; }
+  else
+  {
+    size_t pages = (len + pg - 1) / pg + 1;
+    maplen = (pages + 1) * pg;
+    base = (uint8_t*) mmap(NULL, maplen, PROT_READ | PROT_WRITE, MAP_PRIVATE | MAP_ANONYMOUS, -1, 0);
+    memset(base, 'A', maplen);
+    if (!strcmp(mode, "pnend"))
+    {
+      uint8_t* end = base + pages * pg;                 // data ends exactly where the inaccessible page starts
+      if (len) memcpy(end - len, b, len);
+      mprotect(end, pg, PROT_NONE);
+      data = end - len;
+    }
+    else                                                  // pnstart: data starts right after an inaccessible page
+    {
+      if (len) memcpy(base + pg, b, len);
+      mprotect(base, pg, PROT_NONE);
+      data = base + pg;
+    }
+  }
+  s->msg_index = 0;
+  fprintf(o, "scan msgs=");
+  int rc;
+  if (e[0] == 'r') rc = yr_rules_scan_mem(cur_rules(s), data, len, flags, scan_cb, s, 0);
+  else { yr_scanner_set_flags(s->scanner[s->cur], flags); rc = yr_scanner_scan_mem(s->scanner[s->cur], data, len); }
+  fprintf(o, " rc=%d\n", rc);
+  if (maplen) munmap(base, maplen); else free(base);
+  free(b);
+}
+
 static void proto_cmd(HS* s, char* line)
 {
   char* copy = strdup(line);
@@ -310,6 +377,9 @@ static void proto_cmd(HS* s, char* line)
     P.it.last_error = ERROR_SUCCESS;
     s->nr_call = 0;
     s->msg_index = 0;
+    for (int i = 0; i < 64; i++) { free(P.gbuf[i]); P.gbuf[i] = NULL; }
+    if (P.guard)
+      for (int i = 0; i < s->nblk && i < 64; i++) P.gbuf[i] = guarded_copy(s->blk_data[i], s->blk_len[i], P.guard);
   }
   else if (!strcmp(c, "nulldata"))
   {
@@ -328,6 +398,8 @@ static void proto_cmd(HS* s, char* line)
   }
   else if (!strcmp(c, "pbits")) p_bits(s);
   else if (!strcmp(c, "pmode")) P.naive = !strcmp(tok(&p), "naive");
+  else if (!strcmp(c, "gscan")) gscan_cmd(s, p);
+  else if (!strcmp(c, "pguard")) { char* t = tok(&p); P.guard = !strcmp(t, "slicea") ? 1 : !strcmp(t, "slicew") ? 2 : 0; }
   else if (!strcmp(c, "own")) own_cmd(s, p);
   else if (!strcmp(c, "ownpath")) ownpath_cmd(s, p);
   else if (!strncmp(c, "fd", 2) && (!strcmp(c, "fdopen") || !strcmp(c, "fdscan") || !strcmp(c, "fddecoy") || !strcmp(c, "fdend"))) fd_cmds(s, c, p);
